@@ -20,12 +20,12 @@ BOUNDS = {
     "quick": "<= 3 fragments with concrete payload lengths 0..4 and a final header-only frame with a free 7/16/64-bit declared length; maxFramePayloadSize and maxMessagePayloadSize free in 0..2^63; both roles, both fail modes; sendMessage with payload lengths 0..5 vs a free limit, with and without (auto)fragmentation; option setters with equal/unequal limit pairs; decompression cap free in 0..8 vs message lengths 0..6 x 2 messages",
     "thorough": "as quick with <= 4 fragments, lengths 0..8, every fragment split",
 }
-EXPECT_COVERS = ["rx:over-msg-limit", "rx:over-frame-limit", "rx:within", "tx:refused", "tx:sent", "opts:set", "z:intact"]
+EXPECT_COVERS = ["rx:while-closing", "rx:over-msg-limit", "rx:over-frame-limit", "rx:within", "tx:refused", "tx:sent", "opts:set", "z:intact"]
 BUDGET = {"quick": dict(wall_s=300, max_paths=30000, diff_samples=4), "thorough": dict(wall_s=1800, max_paths=300000)}
 KNOWN = {"C16-deflate-cap-truncates": "PerMessageDeflate.decompress_message_data(data, max_message_size) passes the cap to zlib as max_length: a compressed message whose decompressed size exceeds the cap is delivered truncated (and the rest stays in unconsumed_tail) instead of being rejected"}
 
 
-def rx_limit(sx, server, fbd, lens, last_form, use_frame_limit, use_msg_limit):
+def rx_limit(sx, server, fbd, lens, last_form, use_frame_limit, use_msg_limit, closing=False):
     """message spread over len(lens) complete fragments + one final frame whose header only is delivered"""
     clock, trace, ep, rnd = wslib.open_one(sx, server, dict(failByDrop=fbd))
     p = ep.p
@@ -37,7 +37,12 @@ def rx_limit(sx, server, fbd, lens, last_form, use_frame_limit, use_msg_limit):
     mask = b"\x11\x22\x33\x44" if server else None
     total = 0
     failed = False          # expected: connection already failed
-    info = dict(lens=lens, last_form=last_form, server=server, fbd=fbd)
+    info = dict(lens=lens, last_form=last_form, server=server, fbd=fbd, closing=closing)
+    if closing:
+        # the application has already started the closing handshake; the peer's messages in flight still arrive before its close reply
+        # and the limits hold for them as well (an over-limit one fails the connection at once instead of being buffered)
+        p.sendClose(1000)
+        ep.t.take()
 
     def over(decl, tot):
         o_msg = sx.And(mm > 0, tot > mm)
@@ -45,6 +50,8 @@ def rx_limit(sx, server, fbd, lens, last_form, use_frame_limit, use_msg_limit):
         return o_msg, o_frm
 
     def is_failed():
+        if closing:
+            return ep.t.closed is not None
         return ep.t.closed is not None or p.state != p.STATE_OPEN
 
     for i, L in enumerate(lens):
@@ -110,6 +117,8 @@ def rx_limit(sx, server, fbd, lens, last_form, use_frame_limit, use_msg_limit):
         closes = [f for f in frames if f.opcode == 8]
         if fbd:
             sx.check(ep.t.closed == "abort" and not closes, "fail-by-drop:tcp-dropped", info=info)
+        elif closing:
+            sx.check(ep.t.closed is not None and not closes, "already-closing:tcp-dropped-without-a-second-close-frame", info=info)
         else:
             sx.check(len(closes) == 1, "close-frame-sent", info=info)
             if closes and closes[0].length >= 2:
@@ -117,6 +126,8 @@ def rx_limit(sx, server, fbd, lens, last_form, use_frame_limit, use_msg_limit):
                 sx.check(code == 1009, "close-status-1009", info=info)
         # nothing of the offending frame is buffered as message data
         sx.check(not getattr(p, "frame_data", None), "offending-frame-payload-not-buffered", info=info)
+    if closing:
+        sx.cover("rx:while-closing")
     return [failed, len(trace.of(who, "msg"))]
 
 
@@ -275,6 +286,11 @@ def units(tier):
                             continue
                         U.append(("rx/%s/%s/%s/f%d/%d%d" % ("S" if server else "C", "drop" if fbd else "hs", "-".join(map(str, lens)) or "none", form, uf, um),
                                   "rx_limit", dict(server=server, fbd=fbd, lens=lens, last_form=form, use_frame_limit=uf, use_msg_limit=um)))
+        for fbd in (True, False):
+            for lens in ([[], [2, 1]] if q else [[], [3], [2, 1], [1, 0, 4]]):
+                for form in ((7, 16) if q else (7, 16, 64)):
+                    U.append(("rxclosing/%s/%s/%s/f%d" % ("S" if server else "C", "drop" if fbd else "hs", "-".join(map(str, lens)) or "none", form),
+                              "rx_limit", dict(server=server, fbd=fbd, lens=lens, last_form=form, use_frame_limit=True, use_msg_limit=True, closing=True)))
         for n in (range(0, 6) if q else range(0, 9)):
             for mode in ("plain", "frag", "auto", "deflate"):
                 U.append(("tx/%s/n%d/%s" % ("S" if server else "C", n, mode), "tx_limit", dict(server=server, n=n, mode=mode)))
